@@ -65,6 +65,7 @@ UNITS = {
     'DELIVERY': dict(template='delivery.rs', rlimit=30),
     'TERMINUS': dict(template='terminus.rs', rlimit=30),
     'CONNBUILDER': dict(template='connbuilder.rs', rlimit=30),
+    'ACCBUILDER': dict(template='accbuilder.rs', rlimit=30),
     'VISITENUM': dict(template='visitenum.rs', rlimit=30),
     'NEWTYPES': dict(template='newtypes.rs', rlimit=30),
     'SIZEENTRY': dict(template='sizeentry.rs', rlimit=30),
@@ -204,7 +205,7 @@ PROPS = {
                      'allocation is modelled at the request sites that take a length from the wire (vec![0u8; n], Vec::resize): their stand-ins carry the bound as a precondition; Vec growth inside read_to_end/push/append is std-amortised and proportional to the bytes appended; String::from_utf8(buf) reuses buf',
                      'the stream behind IoReader is an arbitrary byte source that may fail at any point; fewer than 2^64 bytes pass through a reader']),
     'C19': dict(
-        units=['FRAMEDEC', 'SASLNEG', 'SASLMECH', 'HEADERS', 'HDRCODEC', 'FRAMEENC', 'WIRELAYOUT', 'ENUMCODES', 'VISITENUM', 'MECHLIST', 'CONNBUILDER'], kani=K_SASL, level='proof', title='SASL (listener loop, PLAIN and SCRAM mechanisms, SCRAM client and client loop under contract; crypto and string library calls uninterpreted)',
+        units=['FRAMEDEC', 'SASLNEG', 'SASLMECH', 'HEADERS', 'HDRCODEC', 'FRAMEENC', 'WIRELAYOUT', 'ENUMCODES', 'VISITENUM', 'MECHLIST', 'CONNBUILDER', 'ACCBUILDER'], kani=K_SASL, level='proof', title='SASL (listener loop, PLAIN and SCRAM mechanisms, SCRAM client and client loop under contract; crypto and string library calls uninterpreted)',
         level_text='Under Verus contracts: (1) the listener negotiation loop (acceptor/connection.rs negotiate_sasl_with_framed: an AMQP connection is negotiated only after an outcome with code OK was produced by the mechanism and sent; anything else ends in Err); (2) the listener mechanisms: PLAIN (validate_credential / validate_init / on_init / on_response: OK only for the configured user name and password, byte for byte) and SCRAM (ScramVersion::compute_server_final_message, ScramAuthenticator::compute_server_final_message, on_init, on_response: OK only when H(proof XOR HMAC(StoredKey, AuthMessage)) == StoredKey for the user and the combined nonce of this exchange); (3) the SCRAM client (ScramVersion::{compute_client_final_message, validate_server_final, compute_server_signature, compute_client_proof}, auth_message, without_proof, client_final, ScramClient::{compute_client_final_message, validate_server_final}, SaslProfile::on_frame) and the client negotiation loop Builder::negotiate_sasl: Ok only on an outcome frame with code OK, and for a SCRAM profile only if that outcome carries HMAC(ServerKey(password, salt, i), AuthMessage) over an exchange whose server-first message was received as a challenge and whose nonce extends the client nonce; (4) the SASL frame decoder (any body yields Ok or Err, a non-SASL frame type is refused). HMAC/SHA/PBKDF2/XOR, base64 and the str operations are uninterpreted functions. In addition the PLAIN validator is checked by Kani on the real fe2o3-amqp crate for every initial response up to 7 bytes against an independent oracle -- a BOUNDED stand-in listed under bounded_obligations, not counted as proved.',
         assumptions=[
             'cryptographic primitives (hmac, h, h_i/compute_salted_password, xor), base64 encode/decode, str::{split, strip_prefix, starts_with, parse}, from_utf8, the NUL-split iterator and bytes::BufMut on Vec<u8> are stand-ins with uninterpreted results: the contracts say WHICH values are compared and hashed, not that HMAC is unforgeable',
